@@ -12,7 +12,7 @@ def key(s):
 ids = sorted((d for d in os.listdir(root) if re.match(r"^C\d+-\d+$", d)), key=key)
 print("| seed | round | result | sites reported (first three) |")
 print("|---|---|---|---|")
-n = det = neutral = 0
+n = det = neutral = other = 0
 for sid in ids:
     m = json.load(open(os.path.join(root, sid, "meta.json")))
     k = key(sid)[1]
@@ -22,6 +22,10 @@ for sid in ids:
         res = "neutralised by a fix: commit (detected before it)"
         sites = ", ".join(m.get("detecting_sites_before_fix", [])[:3])
         neutral += 1
+    elif m.get("detected_by_other_property"):
+        res = "not by its own property's check; reported by " + m["detected_by_other_property"]
+        sites = ", ".join(m.get("other_property_sites", [])[:3])
+        other += 1
     else:
         res = "detected" if d is True else "MISSED" if d is False else str(d)
         sites = ", ".join(m.get("detecting_sites", [])[:3])
@@ -29,4 +33,4 @@ for sid in ids:
     n += 1
     print("| %s | %d | %s | %s |" % (sid, rnd, res, sites))
 print()
-print("%d seeded changes: %d detected by the quick tier of their own property, %d neutralised by a later fix: commit." % (n, det, neutral))
+print("%d seeded changes: %d detected by the quick tier of their own property, %d reported by the check of a neighbouring property only, %d neutralised by a later fix: commit." % (n, det, other, neutral))
